@@ -297,22 +297,21 @@ def field_tags(tf, v, envd, level_nested):
         tags.add("enum-by-value")
     if t == "opt":
         f = tf["f"]
-        if tf["nf"]:
-            if needs_processing(f):
-                tags.add("optional-none-first")
-            rc = f["cls"] if f["t"] == "ref" else None
-        else:
-            if f["t"] == "enum" and f["byv"]:
-                tags.add("enum-by-value")
-            if f["t"] == "other" and needs_processing(f):
-                tags.add("optional-unchecked")
-            if f["t"] in ("array", "set") and f["item"]["t"] not in T.LEAVES + ("ref",):
-                tags.add("optional-unchecked")
-            tags |= {x for x in field_tags(f, v, envd, True) if x in (
-                "array-of-serializable", "set-of-number", "boolean-from-string", "nested")}
-            rc = f["cls"] if f["t"] == "ref" else (f["item"]["cls"] if f["t"] in ("array", "set") and f["item"]["t"] == "ref" else None)
-            if rc is not None and not py_eligible(envd, rc):
-                tags.add("optional-unchecked")      # an ineligible class reached through Optional[...]
+        # AnyOf[None, T] is processed like AnyOf[T, None] (_extract_non_nonefield_from_optional returns the option that
+        # is not None); the tag names the shape that an implementation returning fields[0] stores unprocessed
+        if tf["nf"] and needs_processing(f):
+            tags.add("optional-none-first")
+        if f["t"] == "enum" and f["byv"]:
+            tags.add("enum-by-value")
+        if f["t"] == "other" and needs_processing(f):
+            tags.add("optional-unchecked")
+        if f["t"] in ("array", "set") and f["item"]["t"] not in T.LEAVES + ("ref",):
+            tags.add("optional-unchecked")
+        tags |= {x for x in field_tags(f, v, envd, True) if x in (
+            "array-of-serializable", "set-of-number", "boolean-from-string", "nested")}
+        rc = f["cls"] if f["t"] == "ref" else (f["item"]["cls"] if f["t"] in ("array", "set") and f["item"]["t"] == "ref" else None)
+        if rc is not None and not py_eligible(envd, rc):
+            tags.add("optional-unchecked")      # an ineligible class reached through Optional[...]
     if t == "array" and tf["item"]["t"] in ("ser", "enum", "enumlit"):
         tags.add("array-of-serializable")
     if (t in ("opt", "union") or (t == "prim" and tf["f"]["t"] == "none")) and v in ([], {}):
@@ -328,12 +327,24 @@ def field_tags(tf, v, envd, level_nested):
     if t == "union":
         if not any(is_none_leaf(l) for l in tf["ls"]):
             tags.add("union-without-none")
-        else:
-            if tf["ls"][0]["t"] == "enum" and v and not (isinstance(v, str) and v in [n for n, _ in T.ENUM_MEMBERS[tf["ls"][0]["cls"]]]):
-                tags.add("union-enum-first")     # the value of another option is looked up as a member name
-            if any(l["t"] in ("ser", "enum") for l in tf["ls"]):
-                tags.add("union-serializable-option")
+        elif tf["ls"][0]["t"] == "enum" and v and not union_enum_hit(tf["ls"][0], v):
+            tags.add("union-enum-first")     # the value of another option is looked up as a member name / value
+        if any(l["t"] in ("ser", "enum") for l in tf["ls"]):
+            tags.add("union-serializable-option")    # (with or without a None option: the value is stored as it is)
     return tags
+
+
+def union_enum_hit(l, v):
+    """the document value is what _get_enum_mapping's entry for the first option (an Enum over an enum class) is
+    indexed by: a member name, or a member value for serialization_by_value"""
+    ms = T.ENUM_MEMBERS[l["cls"]]
+    if l["byv"]:
+        from harness import fieldgen
+        try:
+            return any(fieldgen.unreify(x) == v for _, x in ms)
+        except Exception:  # noqa
+            return False
+    return isinstance(v, str) and v in [n for n, _ in ms]
 
 
 def mapper_unsupported(m):
@@ -460,11 +471,15 @@ def not_identical_doc(c, d, envd=None):
     return False
 
 
+# (the shapes whose defect is repaired in typedpy - none-first Optionals, Set[Number] - come last: a case that shows one of
+# them AND an open design limit of the shortcut is explained by the latter)
 PRIORITY = ["classifier-accepts-ineligible", "unsupported-mapper", "union-without-none", "optional-literal-enum", "enum-by-value", "union-enum-first",
-            "array-of-serializable", "optional-none-first", "optional-unchecked", "set-of-number", "set-of-other",
+            "array-of-serializable", "optional-unchecked", "set-of-other",
             "union-serializable-option", "empty-container-for-optional", "mapper-dotted-key",
             "mapper-inherited-by-nested", "both-mapped-and-own-key", "undefined-key-kept", "default-not-applied",
-            "boolean-from-string", "set-of-structures-hash"]
+            "boolean-from-string", "set-of-structures-hash", "optional-none-first", "set-of-number"]
+PRIORITY.remove("empty-container-for-optional")        # (repaired as well: the NoneField option no longer reads [] / {} as None)
+PRIORITY.append("empty-container-for-optional")
 
 
 RAISING = {"unsupported-mapper": "raises:ValueError", "union-without-none": "raises:AttributeError",
